@@ -29,8 +29,8 @@ def do_keys(repo, out):
 
 
 def do_arena(repo, out):
-    import lower_arena
-    lower_arena.run(repo, out)
+    import lower_arena_main
+    lower_arena_main.run(repo, out)
 
 
 def do_lockfree(repo, out):
